@@ -77,6 +77,23 @@ def _bool_context(test, ids):
     return found == ids
 
 
+class JoinNestedIf(ast.NodeTransformer):
+    """`if a: if b: X` (neither has an else, the inner `if` is all the outer one contains)  ->  `if a and b: X`"""
+
+    def visit_If(self, node):
+        self.generic_visit(node)
+        while not node.orelse and len(node.body) == 1 and isinstance(node.body[0], ast.If) and not node.body[0].orelse:
+            inner = node.body[0]
+            left = node.test.values if isinstance(node.test, ast.BoolOp) and isinstance(node.test.op, ast.And) else [node.test]
+            right = inner.test.values if isinstance(inner.test, ast.BoolOp) and isinstance(inner.test.op, ast.And) else [inner.test]
+            node.test = ast.copy_location(ast.BoolOp(op=ast.And(), values=list(left) + list(right)), node.test)
+            node.body = inner.body
+        return node
+
+    def visit_Lambda(self, node):
+        return node
+
+
 class _DoubleNot(ast.NodeTransformer):
     """`if not not X:` -> `if X:` (test positions only: the truth value is all that is used)"""
 
@@ -856,6 +873,7 @@ def simplify_tree(tree):
     tree = ToAug().visit(tree)
     tree = CounterInduction().visit(tree)
     tree = FlagThread().visit(tree)
+    tree = JoinNestedIf().visit(tree)
     tree = _DoubleNot().visit(tree)
     tree = _InlineTemps().visit(tree)
     return ast.fix_missing_locations(tree)
